@@ -296,3 +296,92 @@ func verifSeveralInputs() {
 		verif_assert(string(out) == string(streams[k]), "C08.several.each-input-yields-its-own-stream")
 	}
 }
+
+// verifSeekSrc is a source that also offers Seek, like the *os.File the
+// commands pass in: a regular file (Seek works) or a pipe / stdin (Seek fails).
+type verifSeekSrc struct {
+	data     []byte
+	pos      int
+	seekable bool
+}
+
+func (s *verifSeekSrc) Read(p []byte) (int, error) {
+	if s.pos >= len(s.data) {
+		return 0, io.EOF
+	}
+	n := copy(p, s.data[s.pos:])
+	s.pos += n
+	return n, nil
+}
+
+func (s *verifSeekSrc) Seek(offset int64, whence int) (int64, error) {
+	if !s.seekable {
+		return 0, io.ErrClosedPipe // what a pipe answers: illegal seek
+	}
+	switch whence {
+	case io.SeekStart:
+		s.pos = int(offset)
+	case io.SeekCurrent:
+		s.pos += int(offset)
+	case io.SeekEnd:
+		s.pos = len(s.data) + int(offset)
+	}
+	return int64(s.pos), nil
+}
+
+// C08 — the source is a file-like reader: it may or may not be able to seek,
+// and it may already have been read up to some offset when detection starts.
+// The stream that counts begins at the reader's current position; the selected
+// decoder's reader yields exactly that, once.
+//
+//verif:harness unwind=64 replay=none
+func verif_harness_C08_detect_file_like_source() {
+	if !verif_is_symbolic_run() {
+		return
+	}
+	all := []byte("0123456789abcdef")
+	start := []int{0, 3}[verif_choose("already_read", 2)]
+	src := &verifSeekSrc{data: all, pos: start, seekable: verif_nondet_bool("can_seek")}
+	stream := all[start:]
+	var final []io.Reader
+	probe := func(accepts bool) func(io.Reader) Decoder {
+		calls := 0
+		return func(rd io.Reader) Decoder {
+			calls++
+			trial := calls == 1
+			if !trial {
+				final = append(final, rd)
+			}
+			return func(r *Result) error {
+				if trial {
+					buf := make([]byte, 1+verif_choose("probe_reads", 5))
+					n, _ := rd.Read(buf)
+					verif_assert(verifSamePrefix(buf[:n], stream), "C08.detect.every-probe-sees-the-stream-from-its-first-byte")
+					if !accepts {
+						return io.ErrUnexpectedEOF
+					}
+				}
+				return nil
+			}
+		}
+	}
+	fmtIdx := verif_choose("format", 3)
+	verif_stub("github.com/tsenart/vegeta/v12/lib.NewDecoder", probe(fmtIdx == 0))
+	verif_stub("github.com/tsenart/vegeta/v12/lib.NewJSONDecoder", probe(fmtIdx == 1))
+	verif_stub("github.com/tsenart/vegeta/v12/lib.NewCSVDecoder", probe(fmtIdx == 2))
+	verif_assert(DecoderFor(src) != nil, "C08.detect.decoder-returned-when-a-format-accepts")
+	verif_assert(len(final) == 1, "C08.detect.first-accepting-format-selected")
+	if len(final) != 1 {
+		return
+	}
+	var out []byte
+	buf := make([]byte, 5)
+	for n := 0; n < 16; n++ {
+		m, err := final[0].Read(buf)
+		out = append(out, buf[:m]...)
+		if err != nil {
+			break
+		}
+	}
+	verif_assert(string(out) == string(stream), "C08.detect.nothing-lost-or-duplicated")
+}
